@@ -186,8 +186,11 @@ CHECKS = {
          'computed by the harness, not by the code under test); application calls are issued before, between and after accept and ready, for both '
          'connection types, with drops and stops. TLC checks Gated, AcceptP, FlushP, WrittenP on the model; on the real client TLC evaluates Gated '
          '(every non-handshake message the service receives arrives after the handshake of that connection), AcceptedOnlyIfValid, RegisterSigned, '
-         'FlushedWithHandshake and AnsweredOnlyIfWritten on what the service actually received, per connection, after every step.',
-    design_ref='DESIGN.md 5.8, 6 (C18), 14',
+         'FlushedWithHandshake and AnsweredOnlyIfWritten on what the service actually received, per connection, after every step. Added: '
+         'spec/ReceiveBacklog.tla - the client\'s receive queue, message loop and handler queue with a blocked loop (handler held, 104 chain tips), '
+         'teardown and connect as separate steps; DataAfterAccept (data reaches the handlers only if the service had accepted, earlier, the connection '
+         'it sent the data on) and AcceptOnce are model-checked and evaluated on what the real handlers saw; strict trace validation of every step.',
+    design_ref='DESIGN.md 5.8, 6 (C18), 14, 14.1',
     note='F33 (queued requests written to a connection that failed authentication / was stopped) found by this check and repaired. The connection '
          'shutdown is slowed by 5 ms at the verif hook conn.teardown so that goroutines woken by it run before the socket closes.',
     technique='TLA+ spec + TLC exhaustive + scenario replay against the real client with trace validation'),
